@@ -180,7 +180,7 @@ LRU = {
     "query": [cp(x) for x in ["", "?", "?q=1", "?a=b:c@d&e=f", "?x"]],
     "frag": [cp(x) for x in ["", "#", "#f", "#a:b@c=d"]],
     # the public suffixes the universe's hosts use, labels TLD first (consistency with ural's bundled list is checked at run time)
-    "suffixes": [[cp(l) for l in s.split(".")[::-1]] for s in ["fr", "co.uk", "uk", "com", "org"]],
+    "suffixes": [[cp(l) for l in s.split(".")[::-1]] for s in ["fr", "co.uk", "uk", "com", "org", "com.br", "br", "github.io", "io"]],
     # C13: host chains (suffix atom, then sub-labels from the registrable domain down) and path chains
     "chains": [[[cp(l) for l in suffix.split(".")[::-1]], [cp(l) for l in subs]] for suffix, subs in
                [("fr", ["lemonde", "www", "a"]), ("co.uk", ["lemonde", "www", "a"]), ("com", ["evil", "fr", "lemonde"]), ("com", ["example", "blog"])]],
